@@ -16,6 +16,7 @@ def auto_models(j, skip=()):
     text, used = '', []
     svinc = False
     flinc = False
+    sqinc = False
     for s in j['std_stubs']:
         q, n = s['qualified'], s['name']
         if n in skip:
@@ -64,18 +65,37 @@ def auto_models(j, skip=()):
                    'long ia = fl_locate(pa, &sa); __CPROVER_assert(ia >= 0, "forward_list model: distance from a valid iterator"); long ib = pb ? fl_locate(pb, &sb) : fl_count[sa]; return ib - ia;' % (ps[0][1], ps[1][1]))
         elif q == 'std::advance' and len(ps) == 2 and '_Fwd_list_' in ps[0][0]:
             flm = ('void* p = *(void**)%s; int sl; if (%s == 0) return; __CPROVER_assert(p != 0, "forward_list model: advance of a valid iterator"); long i = fl_locate(p, &sl); '
-                   '__CPROVER_assert(i >= 0 && i + %s <= fl_count[sl], "forward_list model: advance stays within the list"); *(void**)%s = (i + %s < fl_count[sl]) ? fl_elem[sl][i + %s] : (void*)0;' % (ps[0][1], ps[1][1], ps[1][1], ps[0][1], ps[1][1], ps[1][1]))
+                   '__CPROVER_assert(i >= 0 && i + %s <= fl_count[sl], "forward_list model: advance stays within the list"); *(void**)%s = (i + %s < fl_count[sl]) ? fl_elem_at(sl, i + %s) : (void*)0;' % (ps[0][1], ps[1][1], ps[1][1], ps[0][1], ps[1][1], ps[1][1]))
         elif q in ('std::operator==', 'std::operator!=') and len(ps) == 2 and '_Fwd_list_' in ps[0][0] and '_Fwd_list_' in ps[1][0]:
             deref = lambda p: ('*(void**)%s' % p[1]) if p[0].rstrip().endswith('*') else ('*(void**)&%s' % p[1])
             flm = 'return %s %s %s;' % (deref(ps[0]), q[-2:], deref(ps[1]))
         elif re.match(r'std::_Fwd_list_(const_)?iterator<.*>::operator\+\+$', q) and len(ps) == 1:
-            flm = ('void* p = *(void**)%s; int sl; long i = fl_locate(p, &sl); __CPROVER_assert(i >= 0, "forward_list model: increment of a valid iterator"); *(void**)%s = (i + 1 < fl_count[sl]) ? fl_elem[sl][i + 1] : (void*)0; return (%s)%s;'
+            flm = ('void* p = *(void**)%s; int sl; long i = fl_locate(p, &sl); __CPROVER_assert(i >= 0, "forward_list model: increment of a valid iterator"); *(void**)%s = (i + 1 < fl_count[sl]) ? fl_elem_at(sl, i + 1) : (void*)0; return (%s)%s;'
                    % (ps[0][1], ps[0][1], s['ret'], ps[0][1]))
         if flm:
             if not flinc:
                 text += '#include "flmodel.h"\n'; flinc = True
             text += '/* assumed: std::forward_list as a sequence of never-moving elements (flmodel.h) */\n%s %s(%s) { %s }\n' % (s['ret'], n, s['params'], flm)
             used.append('std::forward_list = finite sequence, iterators designate elements, elements never move (harness/flmodel.h)')
+            continue
+        sqm = None
+        if re.match(r'std::vector<const void \*>::push_back$', q) and len(ps) == 2:
+            sqm = 'sq_append(%s, *%s);' % (ps[0][1], ps[1][1])
+        elif re.match(r'std::(vector|deque)<.*>::size$', q) and len(ps) == 1:
+            sqm = 'return sq_length(%s);' % ps[0][1]
+        elif re.match(r'std::vector<const void \*>::at$', q) and len(ps) == 2:
+            sqm = 'int sl = sq_find(%s); if (sl < 0 || %s >= sq_size[sl]) { __ipr_throw(IPR_EXC_std__out_of_range); return 0; } return &sq_elem_at(sl, %s);' % (ps[0][1], ps[1][1], ps[1][1])
+        elif re.match(r'std::vector<const void \*>::operator\[\]$', q) and len(ps) == 2:
+            sqm = 'int sl = sq_find(%s); __CPROVER_assert(sl >= 0 && %s < sq_size[sl], "sequence model: operator[] within bounds"); return &sq_elem_at(sl, %s);' % (ps[0][1], ps[1][1], ps[1][1])
+        elif re.match(r'std::vector<const void \*>::resize$', q) and len(ps) == 2:
+            sqm = 'int sl = sq_slot(%s); __CPROVER_assert(%s <= SEQ_CAP, "sequence model: resize within the harness bound"); for (int k = 0; k < SEQ_CAP; k++) if (k >= sq_size[sl]) sq_elem_at(sl, k) = 0; sq_size[sl] = %s;' % (ps[0][1], ps[1][1], ps[1][1])
+        elif re.match(r'std::deque<.*>::(operator\[\]|at)$', q) and len(ps) == 2:
+            sqm = 'int sl = sq_find(%s); __CPROVER_assert(sl >= 0 && %s < sq_size[sl], "sequence model: deque element access within bounds"); return (%s)sq_elem_at(sl, %s);' % (ps[0][1], ps[1][1], s['ret'], ps[1][1])
+        if sqm:
+            if not sqinc:
+                text += '#include "seqmodel.h"\n'; sqinc = True
+            text += '/* assumed: std::vector<const void*> / std::deque as finite sequences (seqmodel.h) */\n%s %s(%s) { %s }\n' % (s['ret'], n, s['params'], sqm)
+            used.append('std::vector<const void*> = sequence of pointer values, at() checked; std::deque = sequence of never-moving elements (harness/seqmodel.h)')
             continue
         if q == 'std::char_traits<char8_t>::length' and len(ps) == 1:
             text += '/* assumed: char_traits::length = number of characters before the terminating NUL (strings of the library are short literals) */\n'
